@@ -5,6 +5,7 @@ import (
 	"errors"
 	"fmt"
 	"reflect"
+	"sort"
 	"sync"
 
 	"github.com/graphql-go/graphql/gqlerrors"
@@ -164,8 +165,118 @@ func PlanQuery(schema *Schema, doc *ast.Document, operationName string) (*Plan, 
 		rootType:   rootType,
 		isMutation: operation.GetOperation() == ast.OperationTypeMutation,
 	}
+	// Sub-selections are expanded eagerly, so a fragment that reaches itself
+	// through the sub-selection of a field would be expanded without end.
+	// Validation rejects such documents (NoFragmentCycles), but callers may
+	// plan without validating. A fragment that spreads itself at its own level
+	// is harmless: collectInto skips the repeated spread.
+	if name, found := fragmentCycleThroughField(fragments); found {
+		return nil, fmt.Errorf(`Cannot spread fragment "%v" within itself.`, name)
+	}
 	plan.root = plan.planSelectionSet(rootType, operation.GetSelectionSet(), nil)
 	return plan, nil
+}
+
+// fragmentSpreadEdge is one "fragment spreads fragment" edge; nested is true
+// when the spread sits inside the sub-selection of a field of the spreading
+// fragment rather than at its own level.
+type fragmentSpreadEdge struct {
+	to     string
+	nested bool
+}
+
+// fragmentSpreadEdges lists the fragments a selection set spreads.
+func fragmentSpreadEdges(selectionSet *ast.SelectionSet, nested bool, edges []fragmentSpreadEdge) []fragmentSpreadEdge {
+	if selectionSet == nil {
+		return edges
+	}
+	for _, iSelection := range selectionSet.Selections {
+		switch sel := iSelection.(type) {
+		case *ast.Field:
+			if sel != nil {
+				edges = fragmentSpreadEdges(sel.SelectionSet, true, edges)
+			}
+		case *ast.InlineFragment:
+			if sel != nil {
+				edges = fragmentSpreadEdges(sel.SelectionSet, nested, edges)
+			}
+		case *ast.FragmentSpread:
+			if sel != nil && sel.Name != nil {
+				edges = append(edges, fragmentSpreadEdge{to: sel.Name.Value, nested: nested})
+			}
+		}
+	}
+	return edges
+}
+
+// fragmentCycleThroughField reports a fragment lying on a spread cycle that
+// passes through the sub-selection of a field: a nested edge whose two ends
+// are in the same strongly connected component of the spread graph (Tarjan's
+// algorithm, linear in the size of the fragments).
+func fragmentCycleThroughField(fragments map[string]ast.Definition) (string, bool) {
+	names := make([]string, 0, len(fragments))
+	edges := map[string][]fragmentSpreadEdge{}
+	for name, def := range fragments {
+		fragDef, ok := def.(*ast.FragmentDefinition)
+		if !ok || fragDef == nil {
+			continue
+		}
+		names = append(names, name)
+		edges[name] = fragmentSpreadEdges(fragDef.GetSelectionSet(), false, nil)
+	}
+	sort.Strings(names)
+
+	index := map[string]int{}
+	low := map[string]int{}
+	component := map[string]int{}
+	onStack := map[string]bool{}
+	stack := []string{}
+	next, components := 1, 0
+	var connect func(v string)
+	connect = func(v string) {
+		index[v], low[v] = next, next
+		next++
+		stack = append(stack, v)
+		onStack[v] = true
+		for _, e := range edges[v] {
+			if _, known := edges[e.to]; !known {
+				continue
+			}
+			if index[e.to] == 0 {
+				connect(e.to)
+				if low[e.to] < low[v] {
+					low[v] = low[e.to]
+				}
+			} else if onStack[e.to] && index[e.to] < low[v] {
+				low[v] = index[e.to]
+			}
+		}
+		if low[v] == index[v] {
+			components++
+			for {
+				w := stack[len(stack)-1]
+				stack = stack[:len(stack)-1]
+				onStack[w] = false
+				component[w] = components
+				if w == v {
+					break
+				}
+			}
+		}
+	}
+	for _, name := range names {
+		if index[name] == 0 {
+			connect(name)
+		}
+	}
+	for _, name := range names {
+		for _, e := range edges[name] {
+			if _, known := edges[e.to]; known && e.nested && component[name] == component[e.to] {
+				return name, true
+			}
+		}
+	}
+	return "", false
 }
 
 // planSelectionSet pre-collects the fields under one selection-set
